@@ -56,6 +56,8 @@ class Ctx:
         self.axiom_log = set()     # names of library axioms instantiated
         self.current = None        # name of harness for messages
         self.dim_consts = set()
+        self.path_id = 0
+        self._vc_seen = {}
         self.foralls = []
         self.hints = []
 
@@ -68,6 +70,8 @@ class Ctx:
         self._uf_seen = set()
         self.foralls = []
         self.hints = []
+        self.path_id = getattr(self, 'path_id', 0) + 1
+        self._vc_seen = {}
 
     # ground instantiation of universally quantified library facts (never hand z3 a quantifier)
     def add_forall(self, f):
@@ -137,17 +141,18 @@ ctx = Ctx()
 
 # uninterpreted atoms (A7)
 Rs, Is, Bs = z3.RealSort(), z3.IntSort(), z3.BoolSort()
-COS = z3.Function('cos', Rs, Rs)
-SIN = z3.Function('sin', Rs, Rs)
-SQRT = z3.Function('sqrt', Rs, Rs)
-EXP = z3.Function('exp', Rs, Rs)
-LOG = z3.Function('log', Rs, Rs)
-ATAN = z3.Function('arctan', Rs, Rs)
-ATAN2 = z3.Function('arctan2', Rs, Rs, Rs)
-TANH = z3.Function('tanh', Rs, Rs)
-POW = z3.Function('pow', Rs, Rs, Rs)
+COS = z3.Function('u_cos', Rs, Rs)
+SIN = z3.Function('u_sin', Rs, Rs)
+SQRT = z3.Function('u_sqrt', Rs, Rs)
+EXP = z3.Function('u_exp', Rs, Rs)
+LOG = z3.Function('u_log', Rs, Rs)
+ATAN = z3.Function('u_arctan', Rs, Rs)
+ATAN2 = z3.Function('u_arctan2', Rs, Rs, Rs)
+ASIN = z3.Function('u_arcsin', Rs, Rs)
+TANH = z3.Function('u_tanh', Rs, Rs)
+POW = z3.Function('u_pow', Rs, Rs, Rs)
 PI = z3.Real('PI')
-ATOM_NAMES = {'cos', 'sin', 'sqrt', 'exp', 'log', 'arctan', 'arctan2', 'tanh', 'pow'}   # + spec functions registered later
+ATOM_NAMES = {'u_cos', 'u_sin', 'u_sqrt', 'u_exp', 'u_log', 'u_arctan', 'u_arctan2', 'u_tanh', 'u_pow', 'u_arcsin'}   # + spec functions registered later
 
 
 def _site():
@@ -162,6 +167,11 @@ def _site():
 
 
 # ----------------------------------------------------------------------- scalars
+def _iscx(o):
+    return isinstance(o, (Cx, complex)) or (hasattr(o, 'dtype') and getattr(o, 'ndim', 1) == 0 and o.dtype.kind == 'c'
+                                            and not isinstance(o, Sc))
+
+
 def _is_num(x):
     return isinstance(x, (int, float, fractions.Fraction)) and not isinstance(x, bool) or \
         type(x).__module__ == 'numpy' and hasattr(x, 'dtype') and getattr(x, 'ndim', 1) == 0 \
@@ -308,7 +318,13 @@ def real_floor(z):
 
 
 def safety(kind, cond):
-    """record a safety obligation located at the repository line that triggered it."""
+    """record a safety obligation located at the repository line that triggered it.
+    In 'assume' mode (no_div_safety) the fact is assumed instead; the harness states which other
+    harness discharges it."""
+    if ctx.div_safety == 'assume':
+        ctx.add(tobool(cond))
+        ctx.assumed.append('denominators non-zero assumed inside no_div_safety blocks (discharged by the harness named there)')
+        return
     name = 'safety/%s@%s' % (kind, _site())
     check(name, cond, safety=True)
 
@@ -319,6 +335,8 @@ class SNum(Sc):
     def _bin(self, other, op, rev=False):
         if isinstance(other, Cx):
             return NotImplemented
+        if isinstance(other, complex) or (hasattr(other, 'dtype') and getattr(other, 'ndim', 1) == 0 and other.dtype.kind == 'c'):
+            return NotImplemented
         if not is_scalar_like(other):
             return NotImplemented
         o = lift(other)
@@ -326,12 +344,24 @@ class SNum(Sc):
         az, bz, isint = _arith(a, b)
         return op(az, bz, isint)
 
-    def __add__(self, o): return self._bin(o, lambda a, b, i: _wrap(a + b, i))
-    def __radd__(self, o): return self._bin(o, lambda a, b, i: _wrap(a + b, i), True)
-    def __sub__(self, o): return self._bin(o, lambda a, b, i: _wrap(a - b, i))
-    def __rsub__(self, o): return self._bin(o, lambda a, b, i: _wrap(a - b, i), True)
-    def __mul__(self, o): return self._bin(o, lambda a, b, i: _wrap(a * b, i))
-    def __rmul__(self, o): return self._bin(o, lambda a, b, i: _wrap(a * b, i), True)
+    def __add__(self, o):
+        if _iscx(o): return Cx.lift(self) + Cx.lift(o)
+        return self._bin(o, lambda a, b, i: _wrap(a + b, i))
+    def __radd__(self, o):
+        if _iscx(o): return Cx.lift(o) + Cx.lift(self)
+        return self._bin(o, lambda a, b, i: _wrap(a + b, i), True)
+    def __sub__(self, o):
+        if _iscx(o): return Cx.lift(self) - Cx.lift(o)
+        return self._bin(o, lambda a, b, i: _wrap(a - b, i))
+    def __rsub__(self, o):
+        if _iscx(o): return Cx.lift(o) - Cx.lift(self)
+        return self._bin(o, lambda a, b, i: _wrap(a - b, i), True)
+    def __mul__(self, o):
+        if _iscx(o): return Cx.lift(self) * Cx.lift(o)
+        return self._bin(o, lambda a, b, i: _wrap(a * b, i))
+    def __rmul__(self, o):
+        if _iscx(o): return Cx.lift(o) * Cx.lift(self)
+        return self._bin(o, lambda a, b, i: _wrap(a * b, i), True)
 
     @staticmethod
     def _tdiv(a, b, i):
@@ -343,8 +373,12 @@ class SNum(Sc):
             safety('div', SBool(b != 0))
         return SReal(a / b)
 
-    def __truediv__(self, o): return self._bin(o, self._tdiv)
-    def __rtruediv__(self, o): return self._bin(o, self._tdiv, True)
+    def __truediv__(self, o):
+        if _iscx(o): return Cx.lift(self) / Cx.lift(o)
+        return self._bin(o, self._tdiv)
+    def __rtruediv__(self, o):
+        if _iscx(o): return Cx.lift(o) / self
+        return self._bin(o, self._tdiv, True)
 
     @staticmethod
     def _fdiv(a, b, i):
@@ -766,6 +800,17 @@ def sarctan2(y, x):
     return SReal(t)
 
 
+def sarcsin(x):
+    """arcsin for |x| <= 1 (real branch): sin(arcsin x) = x, cos(arcsin x) >= 0"""
+    ctx.axiom_log.add('arcsin atom: sin(arcsin u)=u, cos(arcsin u)>=0 for |u|<=1 (A7)')
+    x = lift(x)
+    xz = z3.simplify(_toreal(x.z))
+    if z3.is_rational_value(xz) and xz.as_fraction() == 0:
+        return SReal(z3.RealVal(0))
+    return _atom1(ASIN, 'arcsin', SReal(xz),
+                  lambda a, t: [z3.Implies(z3.And(a >= -1, a <= 1), z3.And(SIN(t) == a, COS(t) >= 0, COS(t) * COS(t) + a * a == 1))])
+
+
 def sfloor(x):
     x = lift(x)
     if isinstance(x, SInt):
@@ -1125,19 +1170,55 @@ def check(name, cond, safety=False):
     import time
     cz = z3.simplify(tobool(cond))
     ctx.stats['vc'] += 1
+    if safety:
+        k = (name, cz.get_id())
+        if k in ctx._vc_seen:
+            return
+        ctx._vc_seen[k] = cz        # keeps the AST alive so the id stays unique
     if z3.is_true(cz):
         ctx.results.append((name, 'unsat', {'trivial': True, 't': 0.0, 'safety': safety}))
         return
     s = z3.Solver()
-    s.set('timeout', ctx.vc_timeout_ms)
+    first_ms = min(ctx.vc_timeout_ms, 1500)
+    s.set('timeout', first_ms)
     for p in ctx.pc:
         s.add(p)
     s.add(z3.Not(cz))
     t = time.time()
+    if os.environ.get('PVC_DUMP'):
+        with open(os.path.join(os.environ['PVC_DUMP'], 'vc_%s.smt2' % name.replace('/', '_')), 'w') as f:
+            f.write(s.to_smt2())
     r = s.check()
+    backend = 'z3'
+    pit_note = None
+    if r == z3.unknown:
+        # polynomial-identity back end, then z3 again on the Ackermannised formula with the full budget
+        from . import pit
+        ok, pinfo = pit.prove(list(ctx.pc), cz, entails)
+        if ok:
+            r = z3.unsat
+            backend = 'pit'
+        else:
+            pit_note = str(pinfo)
+            s = z3.Solver()
+            s.set('timeout', ctx.vc_timeout_ms)
+            for g in ackermannize(list(ctx.pc) + [z3.Not(cz)]):
+                s.add(g)
+            r = s.check()
+            backend = 'z3-ack'
+            if r == z3.sat:
+                # a model of the Ackermannised formula need not respect congruence: re-confirm on the original
+                s0 = z3.Solver()
+                s0.set('timeout', ctx.vc_timeout_ms)
+                for p in ctx.pc:
+                    s0.add(p)
+                s0.add(z3.Not(cz))
+                r = s0.check()
+                s = s0
+                backend = 'z3'
     dt = time.time() - t
     ctx.solver_s += dt
-    info = {'t': dt, 'safety': safety, 'path': ''.join('T' if d else 'F' for d in ctx.trail)}
+    info = {'t': dt, 'safety': safety, 'path': ''.join('T' if d else 'F' for d in ctx.trail), 'backend': backend}
     if r == z3.unsat:
         ctx.results.append((name, 'unsat', info))
     elif r == z3.sat:
@@ -1147,10 +1228,47 @@ def check(name, cond, safety=False):
         info['site'] = _site()
         ctx.results.append((name, 'sat', info))
     else:
-        info['reason'] = s.reason_unknown()
+        info['reason'] = '%s; pit: %s' % (s.reason_unknown(), pit_note)
         ctx.results.append((name, 'unknown', info))
     # continue the path under the checked fact (standard assert-then-assume)
     ctx.add(cz)
+
+
+def entails(f):
+    """cheap query: does the current path condition entail f"""
+    s = z3.Solver()
+    s.set('timeout', 1500)
+    for p in ctx.pc:
+        s.add(p)
+    s.add(z3.Not(f))
+    return s.check() == z3.unsat
+
+
+def ackermannize(fs):
+    """replace every application of an uninterpreted function by a fresh constant (congruence is
+    dropped: weaker hypotheses, so unsat answers stay sound)."""
+    cache = {}
+    names = {}
+
+    def rw(e):
+        r = cache.get(e.get_id())
+        if r is not None:
+            return r
+        if z3.is_app(e) and e.num_args() > 0:
+            ch = [rw(c) for c in e.children()]
+            if e.decl().kind() == z3.Z3_OP_UNINTERPRETED:
+                key = e.decl().name() + '(' + ','.join(str(c.get_id()) for c in ch) + ')'
+                r = names.get(key)
+                if r is None:
+                    r = z3.Const('ack!%d' % len(names), e.sort())
+                    names[key] = r
+            else:
+                r = e.decl()(*ch)
+        else:
+            r = e
+        cache[e.get_id()] = r
+        return r
+    return [rw(f) for f in fs]
 
 
 def small_model(s):
